@@ -201,6 +201,19 @@ fn variants(plan: &Plan, valid: &[u8]) -> Vec<(String, Vec<u8>)> {
                 let mut v = valid.to_vec();
                 v.extend_from_slice(&[0xAB; 7]);
                 out.push(("extend+7".to_string(), v));
+                // buffers of every short length filled with one byte value (what a torn, zero-filled write
+                // leaves behind; all-ones is no valid scalar, length or flag either), with and without the
+                // leading tag of the valid encoding
+                for fill in [0x00u8, 0xff] {
+                    for l in 0..=(len + 8).min(160) {
+                        out.push((format!("fill{:02x}@{}", fill, l), vec![fill; l]));
+                        if l > 0 {
+                            let mut t = vec![fill; l];
+                            t[0] = valid[0];
+                            out.push((format!("fill{:02x}+tag@{}", fill, l), t));
+                        }
+                    }
+                }
             }
         }
         "u32-window" => {
@@ -335,7 +348,7 @@ impl Scenario for C10 {
     fn meta(&self) -> Meta {
         Meta {
             level: "fault_enumeration",
-            rule: "catalogue of 26 valid encodings produced by a real history (all 15 message tags incl. three Transaction shapes and a Block-tagged message, full and header block, transaction, slip, hop, golden-ticket payload, wallet file, block file, fetched block buffer). Run i takes encoding i mod 26 and one corruption family: ALL truncation lengths (chunks of 600), every 4-byte window of the first 400 and last 20 bytes overwritten with 11 boundary values and true value +-1 (chunks of 60 offsets), 300 seeded 1-3 bit flips, 300 seeded random strings keeping the leading tag. Each variant is (a) passed to the decoder directly under catch_unwind with a per-thread counting allocator: no panic, peak allocation <= 16*len + 1 MiB; (b) delivered through the real entry point of a live node: IncomingNetworkMessage from an authenticated peer (then routing -> verification -> consensus to quiescence), BlockFetched buffer, block file / wallet file present at restart: no handler panics. exhaustive per encoding for truncations once chunk indices cover its length. distinct_nontrivial = distinct (encoding, corruption label) delivered.",
+            rule: "catalogue of 26 valid encodings produced by a real history (all 15 message tags incl. three Transaction shapes and a Block-tagged message, full and header block, transaction, slip, hop, golden-ticket payload, wallet file, block file, fetched block buffer). Run i takes encoding i mod 26 and one corruption family: ALL truncation lengths (chunks of 600) plus every length up to 160 filled with 0x00 / 0xff (with and without the leading tag), every 4-byte window of the first 400 and last 20 bytes overwritten with 11 boundary values and true value +-1 (chunks of 60 offsets), 300 seeded 1-3 bit flips, 300 seeded random strings keeping the leading tag. Each variant is (a) passed to the decoder directly under catch_unwind with a per-thread counting allocator: no panic, peak allocation <= 16*len + 1 MiB; (b) delivered through the real entry point of a live node: IncomingNetworkMessage from an authenticated peer (then routing -> verification -> consensus to quiescence), BlockFetched buffer, block file / wallet file present at restart: no handler panics. exhaustive per encoding for truncations once chunk indices cover its length. distinct_nontrivial = distinct (encoding, corruption label) delivered.",
             real: &["Message::deserialize and all per-tag decoders", "Block/Transaction/Slip/Hop::deserialize_from_net", "GoldenTicket::deserialize_from_net", "Wallet::deserialize_from_disk", "RoutingThread/VerificationThread/ConsensusThread handlers", "ConsensusThread::on_init + Storage::load_blocks_from_disk"],
             stubs: &["SimNet scripted peer", "SimIo disk", "counting global allocator in simctl"],
             assumptions: &["'random strings' are sampled, not enumerated", "allocation bound is applied to direct decoder calls only (handlers legitimately allocate state)"],
